@@ -793,7 +793,7 @@ impl Stream for GiantLists
 /// deep nesting and long operator chains, up to the stated input size: the
 /// front end has to cope without running out of stack
 struct DeepExpressions;
-const DEEP_KINDS: &[&str] = &["binary chain", "parentheses", "unary chain", "blocks", "ifs", "array literals", "calls", "indices", "array types", "pointer types", "else-if chain", "member chain"];
+const DEEP_KINDS: &[&str] = &["binary chain", "parentheses", "unary chain", "blocks", "ifs", "array literals", "calls", "indices", "array types", "pointer types", "else-if chain", "address run", "address run in a length", "address run before an assignment", "member chain"];
 const DEEP_SIZES: &[usize] = &[100, 1000, 3000, 8000, 20_000, 40_000];
 impl Stream for DeepExpressions
 {
@@ -830,6 +830,10 @@ impl Stream for DeepExpressions
 			"array types" => format!("const P: {}i32 = a;\n", rep("[1]")),
 			"pointer types" => format!("fn f(x: {}i32);\n", rep("&")),
 			"else-if chain" => format!("fn f()\n{{\n\tif a == b\n\t{{\n\t}}\n{}}}\n", rep("\telse if a == b\n\t{\n\t}\n")),
+			// (runs of `&` are counted in a narrow integer: the limit is E390)
+			"address run" => format!("fn f()\n{{\n\tvar x = {}a;\n}}\n", rep("&")),
+			"address run in a length" => format!("fn f()\n{{\n\tvar x = |{}a|;\n}}\n", rep("&")),
+			"address run before an assignment" => format!("fn f()\n{{\n\t{}a = b;\n}}\n", rep("&")),
 			_ => format!("const P: i32 = a{};\n", rep(".m")),
 		};
 		if src.len() > 262_144
